@@ -1,7 +1,8 @@
 (* Props_C18.v — property theorems for C18. *)
 From Coq Require Import ZArith QArith List String Bool Arith.
 Import ListNotations.
-From HolpyV Require Import TruthTable Alethe AletheSound LaGeneric LaGenericSound.
+From Coq Require Import Qcanon.
+From HolpyV Require Import ProdSimp ProdSimpSound TruthTable Alethe AletheSound LaGeneric LaGenericSound.
 
 (* Whenever the model of a veriT rule evaluation (13 propositional rules:
    not_or not_and not_not implies and_pos or_pos not_equiv1/2 equiv1/2 and or
@@ -66,3 +67,26 @@ Print Assumptions C18_la_generic_historical_refuted.
 Example C18_la_generic_example :
   accept_int [mkZ KGe [1; -1]%Z 1%Z; mkZ KGe [-1; 1]%Z 0%Z] [1; 1]%Z = true.
 Proof. vm_compute. reflexivity. Qed.
+
+(* prod_simplify (ProdSimplifyMacro.eval): both sides are flattened into factors, the numerals
+   multiplied, the other factors compared as lists.  Whenever the test accepts, the two sides
+   have the same value under every valuation of the non-numeral factors -- over the integers and
+   over the rationals (the numerals of real-typed products), in fact over every commutative ring
+   (ProdSimpSound.accept_sound).  Comparing the other factors as sets instead is refuted. *)
+Theorem C18_prod_simplify_int_sound : forall l r, accept_Z l r = true -> forall v, ProdSimp.peval Z Z.mul v l = ProdSimp.peval Z Z.mul v r.
+Proof. exact accept_Z_sound. Qed.
+Print Assumptions C18_prod_simplify_int_sound.
+
+Theorem C18_prod_simplify_rat_sound : forall l r, accept_Qc l r = true -> forall v, ProdSimp.peval Qc Qcmult v l = ProdSimp.peval Qc Qcmult v r.
+Proof. exact accept_Qc_sound. Qed.
+Print Assumptions C18_prod_simplify_rat_sound.
+
+Theorem C18_prod_simplify_sets_refuted :
+  exists l r v, accept_sets Z Z.mul 1%Z Z.eqb l r = true /\ ProdSimp.peval Z Z.mul v l <> ProdSimp.peval Z Z.mul v r.
+Proof. exact accept_sets_refuted. Qed.
+Print Assumptions C18_prod_simplify_sets_refuted.
+
+Example C18_prod_simplify_example :
+  accept_Z (ProdSimp.PMul (ProdSimp.PMul (ProdSimp.PMul (ProdSimp.PNum 2%Z) (ProdSimp.PAtom 0)) (ProdSimp.PNum 3%Z)) (ProdSimp.PAtom 1)) (ProdSimp.PMul (ProdSimp.PMul (ProdSimp.PNum 6%Z) (ProdSimp.PAtom 0)) (ProdSimp.PAtom 1)) = true
+  /\ accept_Z (ProdSimp.PMul (ProdSimp.PMul (ProdSimp.PMul (ProdSimp.PNum 2%Z) (ProdSimp.PAtom 0)) (ProdSimp.PNum 3%Z)) (ProdSimp.PAtom 0)) (ProdSimp.PMul (ProdSimp.PNum 6%Z) (ProdSimp.PAtom 0)) = false.
+Proof. exact accept_Z_nonvacuous. Qed.
